@@ -1,3 +1,4 @@
+#![allow(irrefutable_let_patterns)]
 //! C15 — integer conversions truncate toward zero and report overflow as None.
 use bigdecimal::num_bigint::ToBigInt;
 use bigdecimal::{BigDecimal, FromPrimitive, ToPrimitive};
@@ -120,7 +121,28 @@ fn representations(v: &Dec) -> Vec<Dec> {
 
 macro_rules! ctor_checks {
     ($run:expr, $t:expr, $($ty:ty),*) => {$(
-        for v in [<$ty>::MIN, <$ty>::MAX, 0 as $ty, 1 as $ty, (0 as $ty).wrapping_sub(1), <$ty>::MAX - 1, <$ty>::MIN + 1, 10 as $ty] {
+        // the type's own limits, and the limits of EVERY integer width (+-2^e + d) that fit in the type: a
+        // constructor that takes a shortcut by width must be exact on both sides of every narrower width
+        let mut vals: Vec<$ty> = vec![<$ty>::MIN, <$ty>::MAX, 0 as $ty, 1 as $ty, (0 as $ty).wrapping_sub(1), <$ty>::MAX - 1, <$ty>::MIN + 1, 10 as $ty];
+        for e in [7u32, 8, 15, 16, 31, 32, 63, 64, 126, 127] {
+            for d in -3i128..=3 {
+                if e < 127 {
+                    for c in [(1i128 << e) + d, -(1i128 << e) + d] {
+                        if let Ok(v) = <$ty>::try_from(c) {
+                            vals.push(v);
+                        }
+                    }
+                }
+                if let Some(c) = (1u128 << e).checked_add_signed(d) {
+                    if let Ok(v) = <$ty>::try_from(c) {
+                        vals.push(v);
+                    }
+                }
+            }
+        }
+        vals.sort();
+        vals.dedup();
+        for v in vals {
             let want = Dec { n: BigInt::from(v), s: 0 };
             let forms: Vec<(&str, Result<BigDecimal, String>)> = vec![
                 ("From<T>", guard(|| BigDecimal::from(v))),
